@@ -42,6 +42,24 @@ theorem C04_idem_counterexample : ¬ C04_idem_Full := by
   rw [e] at this
   cases this
 
+/-- **Idempotence for simple unions** (PgProofs/TypingUnion.lean): a `Union` (any flags, frozen or
+not) whose candidates are non-frozen leaves of pairwise disjoint value types (`simpleUnion`) drawn
+from the fragment — the dispatch of `Union._apply` is then a function of the value's type, and the
+candidate's result has the type it was routed by. -/
+theorem C04_idem_partial_union (env : Env) (cands : List Spec) (f : Flags)
+    (hs : simpleUnion cands = true) (hfr : fragList cands = true) (p : Bool) (v v' : Val)
+    (h : apply env (.union cands f) p v = .ok v') : apply env (.union cands f) p v' = .ok v' :=
+  apply_idem_union env cands f hs hfr p v v' h
+
+/-- The F47 witness lies outside `simpleUnion` (frozen candidates, and `Bool` / `Int` overlap). -/
+theorem C04_idem_exclusion_F47 :
+    simpleUnion [.bool ⟨false, .bool false, true⟩, .int none none ⟨false, .bool true, true⟩] = false ∧
+    candOk (.int none none ⟨false, .bool true, true⟩) = false ∧
+    simpleUnion [.str none F0, .int none none F0] = true := by decide
+
+example : apply env0 (.union [.float none none F0, .list (.str none F0) 0 none F0] ⟨true, .missing, false⟩) false (.int 1)
+    = .ok (.float ⟨1, 0⟩) := by rfl
+
 /-! ## 2. A spec's own default is acceptable; applying never changes the spec -/
 
 /-- `set_default` (168-182): the stored default is what `apply(…, allow_partial=True)` returned. -/
@@ -89,6 +107,25 @@ theorem C04_default (env : Env) (s s' : Spec) (hs : frag s = true) (d0 : Val)
       cases s <;> rfl
     rw [e2, apply_setFlags_default env _ d (by cases s <;> rfl)]
     exact hi
+
+/-- Default acceptability for simple unions of fragment candidates. -/
+theorem C04_default_union (env : Env) (cands : List Spec) (f : Flags) (hs : simpleUnion cands = true)
+    (hfr : fragList cands = true) (s' : Spec) (d0 : Val)
+    (h : setDefault env (.union cands f) d0 = .ok s') :
+    apply env s' true s'.flags.default = .ok s'.flags.default := by
+  unfold setDefault at h
+  simp only [Spec.setFlags, Spec.flags] at h
+  cases hd : apply env (.union cands { f with default := .missing, frozen := false }) true d0 with
+  | error e => simp [hd] at h
+  | ok d =>
+    simp only [hd] at h
+    injection h with h; subst h
+    have hi := apply_idem_union env cands _ hs hfr true d0 d hd
+    have := apply_setFlags_default env (.union cands { f with default := .missing, frozen := false }) d rfl true d
+    simp only [Spec.setFlags, Spec.flags] at this ⊢
+    rw [this]; exact hi
+
+example : ∃ s', setDefault env0 (.union [.float none none F0, .str none F0] F0) (.int 1) = .ok s' := ⟨_, rfl⟩
 
 /-- … and the same after `freeze()`: a frozen spec accepts its own default. -/
 theorem C04_default_frozen (env : Env) (s : Spec) (p : Bool) (hf : s.flags.frozen = true) :
